@@ -5,3 +5,116 @@ META = {'explanation': 'ghost-heap ownership clause evaluated on every path of t
                        'hand-offs) and of the public operators / slicing / mutators.'}
 EXTRA_TASKS = []
 ALSO_PROPS = ['C01', 'C16', 'C03']
+EXTRA_TASKS = ['dtype_routes_isolation']
+
+
+def _sample_values(defn, rng):
+    """(value, length-or-None) pairs for one registered dtype, including the saturating / boundary values of the float formats"""
+    rt = defn.return_type
+    name = defn.name
+    lens = list(defn.allowed_lengths.values) if defn.allowed_lengths else []
+    if lens and lens[-1] is Ellipsis:
+        step = lens[1] - lens[0]
+        lens = [lens[0] + step * k for k in (0, 1, 2, 4)] if lens[0] else [step * k for k in (1, 2, 4)]
+    out = []
+    if defn.variable_length:
+        return [(v, None) for v in (0, 1, 2, 5, 6, 7, 8, 100, 12345)] + ([(v, None) for v in (-1, -2, -7, -100)] if defn.is_signed else [])
+    if rt is bool:
+        return [(True, None), (False, None)]
+    if rt is float:
+        vals = [0.0, -0.0, 1.0, -1.0, 0.5, 1.984375, 1.99, 2.0, -2.0, 2.5, -2.5, 3.0, 100.0, -100.0, 448.0, 449.0, 1e6, -1e6, 57344.0, 65504.0,
+                6.0, 7.0, 1e30, -1e30, 1e39, float('inf'), float('-inf'), 2.0 ** -140, 2.0 ** 127, 2.0 ** -127, 1e-50]
+        for L in (lens or [8]):
+            for v in vals:
+                out.append((v, L if len(lens) != 1 else None))
+        return out
+    if rt is int:
+        for L in (lens or [1, 7, 8, 12, 64]):
+            for v in (0, 1, -1, (1 << (L - 1)) - 1, -(1 << (L - 1))):
+                out.append((v, L))
+        return out
+    if rt is str:
+        digit = {'hex': 'a', 'oct': '5', 'bin': '1'}.get(name, '1')
+        return [(digit * k, None) for k in (1, 2, 5)]
+    if rt is bytes:
+        return [(b'\x01', None), (b'abc', None)]
+    return [('0b101', None), ('0xfe', None)]
+
+
+def _assign(x, n, v):
+    setattr(x, n, v)
+    return x
+
+
+def dtype_routes_isolation(tier='quick', seed=0):
+    """bounded, native: for every dtype in the real register and each creation route into a *mutable* bitstring (keyword, property
+    assignment, pack, format string), an in-place change of the created object must not show in an independently created twin, in a
+    later creation with the same value (by any route), or in an immutable Bits made afterwards"""
+    import random
+    import bitstring
+    from bitstring import Bits, BitArray, BitStream, pack
+    from bitstring.dtypes import dtype_register
+    rng = random.Random(seed)
+    fails = []
+    evals = 0
+
+    def mutate(x):
+        if len(x):
+            x.invert()
+        x.append('0b1')
+
+    for name, defn in sorted(dtype_register.names.items()):
+        if name == 'pad' or defn.set_fn is None:
+            continue
+        for value, L in _sample_values(defn, rng):
+            kw = {name: value}
+            if L is not None:
+                kw['length'] = L
+            # each route is an expression over CLS, so that the replay text is exactly what was run
+            routes = [('keyword', f'bitstring.CLS(**{kw!r})')]
+            if L is not None:
+                routes.append(('property', f'_assign(bitstring.CLS(length={L * (defn.multiplier or 1)}), {name!r}, {value!r})'))
+            else:
+                routes.append(('property', f'_assign(bitstring.CLS(), {name!r}, {value!r})'))
+            one_len = bool(defn.allowed_lengths) and defn.allowed_lengths.only_one_value()
+            tok = name if (L is None or one_len) else f'{name}{L}'
+            if not isinstance(value, (bytes, Bits)):
+                routes.append(('format string', f'bitstring.CLS({tok + "=" + str(value)!r})'))
+            routes.append(('pack', f'bitstring.pack({tok!r}, {value!r})'))
+            env = {'bitstring': bitstring, '_assign': _assign, 'inf': float('inf')}
+            for rname, expr in routes:
+                for cls in ('BitArray', 'BitStream'):
+                    if rname == 'pack' and cls == 'BitArray':
+                        continue
+                    e1 = expr.replace('CLS', cls)
+                    try:
+                        a = eval(e1, env)
+                    except Exception:
+                        continue           # this value is not accepted by this route: nothing is created
+                    evals += 1
+                    want = a.bin
+                    b = eval(e1, env)
+                    mutate(a)
+                    bad = []
+                    for r2, expr2 in routes + [('Bits keyword', f'bitstring.Bits(**{kw!r})')]:
+                        e2 = expr2.replace('CLS', 'BitArray')
+                        try:
+                            got = eval(e2, env).bin
+                        except Exception:
+                            continue
+                        if got != want:
+                            bad.append((r2, e2))
+                    if b.bin != want:
+                        bad.append(('an independently created twin', 'b'))
+                    if bad:
+                        fails.append({'call': f'{e1}, then invert()/append in place', 'observed': f'changed: {[r for r, _ in bad][:3]}',
+                                      'python': 'import bitstring\ninf = float("inf")\n'
+                                                'def _assign(x, n, v):\n    setattr(x, n, v)\n    return x\n'
+                                                f'a = {e1}; want = a.bin; b = {e1}\n'
+                                                'if len(a): a.invert()\na.append("0b1")\n'
+                                                f'FAILS = b.bin != want or ({bad[0][1]}).bin != want\n'})
+    bounded = [{'id': 'C04/dtypes.dtype_register/creation-routes-into-mutable-objects-are-isolated', 'qualname': 'dtypes.Register', 'shape': 'every registered dtype',
+                'function': 'every set_fn in the dtype register x keyword / property / format-string / pack routes',
+                'bound': 'boundary and saturating sample values per dtype and allowed length', 'evaluations': evals, 'failures': fails[:3]}]
+    return {'id': 'C04.routes', 'obligations': [], 'bounded': bounded, 'evaluations': evals, 'functions': ['dtypes.Register'],
+            'summary': f'{evals} creations, {len(fails)} failures'}
